@@ -289,5 +289,10 @@ def run(ctx):
             rets = cfg.exits(b)
             # the false edge reaches return without passing the loop head again; true edge cannot return without a new attempt
             ok = false_t is not None and bool(set(rets) & cfg.reachable(b, false_t, avoid={ib})) and not (set(rets) & cfg.reachable(b, true_t, avoid={ib}))
+        from engine.asyncs import await_of_call
+        aw = await_of_call(P, b, ib)
+        ok2 = aw is not None and aw['ready_bb'] is not None and cfg.all_paths_pass(b, aw['ready_bb'], cfg.exits(b), {pb})
+        R.ob('C20.retry', ('Retry::call', 'every result is shown to the policy before returning'), ok2,
+             'no path from an attempt\'s completion to the return bypasses the policy (the stub never stops retrying on its own)', [b.loc(pt)])
         R.ob('C20.retry', ('Retry::call', 'retry iff the policy says so'), ok,
              'the loop returns on the policy\'s false edge and re-issues the request on its true edge', [b.loc(pt)])
